@@ -55,6 +55,8 @@ JOBS = {
     "dec-fail": ("decoder", "[C][O][C][Foo]", {}),
     "enc-nonstrict": ("encoder", "C(F)(F)(F)(F)F", {"strict": False}),
     "enc-fail": ("encoder", "N1CC(C", {}),
+    "dec-foreign-index": ("decoder", "[C][C][C][Ring1][F]", {}),      # irregular but accepted: a non-index symbol / nothing in index position
+    "dec-cut-index": ("decoder", "[C][C][C][C][Ring2][Xe]", {}),
     "enc-blossoms": ("encoder", "c23c1ccc3cccccccc2ccc1", {}),       # several odd cycles are contracted within one augmenting-path search
     "enc-3blossoms": ("encoder", "c12c3cc4c3c4c1c2", {}),             # the smallest chain+chords system with three contractions in one search
 }
@@ -65,7 +67,8 @@ PAIRS = [("dec-Si-a", "dec-Si-b"), ("dec-Si-a", "dec-SiH"), ("dec-ring-a", "dec-
          ("enc-oddfused-a", "enc-oddfused-a"), ("enc-oddfused-a", "enc-oddfused-b"), ("enc-pyridine", "enc-pyridine"),
          ("enc-two-rings-a", "enc-two-rings-b"), ("enc-two-rings-a", "enc-two-rings-a"),
          ("dec-compat", "dec-legacy-noflag"), ("dec-compat", "dec-Si-a"), ("dec-fail", "dec-legacy-noflag"),
-         ("enc-nonstrict", "enc-strict-fail"), ("enc-fail", "enc-pyridine"), ("dec-fail", "dec-ring-a")]
+         ("enc-nonstrict", "enc-strict-fail"), ("enc-fail", "enc-pyridine"), ("dec-fail", "dec-ring-a"),
+         ("dec-foreign-index", "dec-cut-index"), ("dec-foreign-index", "dec-ring-a")]
 SHORT = [("dec-short-a", "dec-short-b"), ("dec-chg-a", "dec-chg-b"), ("dec-Si-b", "dec-Si-b")]
 TRIPLES = [("dec-short-a", "dec-short-b", "dec-Si-b"), ("dec-chg-a", "dec-chg-b", "enc-pyrrole")]
 NCHUNK = 8
@@ -155,7 +158,8 @@ _SERIAL = {}
 
 
 POST_PROBES = [("encoder", "C1CCCCCCCCCCCCCCCCCC1(CCCCCCCCCCCCCCCCCCC)F"), ("decoder", "[Si][C][Ge][Ring1][Ring1][N+1]"),
-               ("encoder", "c1cc[nH]c1")]
+               ("encoder", "c1cc[nH]c1"),
+               ("decoder", "[C]" * 20 + "[Ring2][Ring1][C]"), ("decoder", "[N][Branch2][Ring1][Ring1]" + "[C]" * 19 + "[O]")]
 _POST_REF = []
 
 
